@@ -40,8 +40,8 @@ class C05(WrapHarness):
         out.append(dict(base, mode='fill', gen='sym1', n=3 if q else 4, algo='F', ind='ii', imax=1, le='CRLF'))
         out.append(dict(base, mode='fill', gen='symall', n=2 if q else 3, algo='F', ind='si', imax=1))
         out.append(dict(base, mode='fill', gen='sym1', n=3 if q else 4, le='CRLF', bw=False))
-        out += std_tmpl_spaces(dict(base, algo='F'), q, variants=False, mode='paths')
-        out += std_tmpl_spaces(dict(base, algo='F'), q, variants=False, mode='fill')
+        out += std_tmpl_spaces(dict(base, algo='F'), q, variants=False, cind=True, mode='paths')
+        out += std_tmpl_spaces(dict(base, algo='F'), q, variants=False, cind=True, mode='fill')
         if not q:
             out += std_tmpl_spaces(dict(base, algo='F', ind='both', imax=1), q, variants=False, mode='fits')
             out += tmpl_spaces(dict(base, wmax=1 << 16), ['short', 'longword', 'paras'], mode='paths')
